@@ -23,8 +23,16 @@ pub fn strategy() -> BoxedStrategy<Scenario> {
             (simgen::fates(30, 4), proptest::collection::vec(simgen::sender_sev(), 0..20), simgen::after()),
         ],
         (any::<bool>(), any::<bool>()),
+        prop_oneof![40 => Just(1u8), 1 => Just(2u8), 1 => Just(3u8)],
     )
-        .prop_map(|(geo, seed, hs, (fates, script, after), (gap, dally))| simgen::scenario(Role::Sender, geo, seed, hs, fates, script, after, (gap, dally, true)))
+        .prop_map(|(geo, seed, hs, (fates, script, after), (gap, dally), repeat)| {
+            let mut sc = simgen::scenario(Role::Sender, geo, seed, hs, fates, script, after, (gap, dally, true));
+            // duplicate-packets mode is a configuration too (1 ms real sleep per copy: short transfers only)
+            if repeat > 1 && sc.nblocks() <= 12 {
+                sc.repeat = repeat;
+            }
+            sc
+        })
         .boxed()
 }
 
@@ -35,6 +43,7 @@ pub fn judge(dir: &Path, sc: &Scenario, obs: &mut Obs) -> Judge {
     obs.shape = fa.shape;
     obs.nontrivial = n >= 2 && (!r.hits.is_empty() || !r.script_used.is_empty() || r.forced_timeouts > 0 || sc.blk != 512 || sc.ws != 1);
     obs.class_if(sc.handshake, "handshake");
+    obs.class_if(sc.repeat > 1, "duplicate-packets-mode");
     obs.class_if(sc.file_len == 0, "empty-file");
     obs.class_if(sc.file_len % sc.blk == 0 && sc.file_len > 0, "exact-multiple");
     obs.class_if(sc.file_len < sc.blk, "single-block");
